@@ -86,8 +86,8 @@ def lift (O : Oracles) (opts : DeserOpts) : FieldDecl → PyVal → Option PyVal
   | .mapAny _, d => (match d with | .dict _ => some d | _ => none)
   | .mapOf kf vf _, d => (match d with
     | .dict kvs => (mapO (fun (kv : PyVal × PyVal) =>
-          match lift O { opts with keepUndefined := true } kf kv.1,
-                lift O { opts with keepUndefined := true } vf kv.2 with
+          match lift O opts kf kv.1,
+                lift O opts vf kv.2 with
           | some k', some v' => some (k', v')
           | _, _ => none) kvs).bind fun r =>
         if r.any (fun kv => unhashable kv.1) then none else some (.dict (dictOfPairs r))
